@@ -102,6 +102,11 @@ def selectTensorB (K : Ops α) (interp : Interp α) (r : Ring (List α)) (dt tol
   else .ok (times.zipIdx.map fun tp => tp.1.map fun t =>
     selectElem K interp (gatherAt r tp.2) dt tol t offset)
 
+/-- an indexed entry, `.noSlot` when the index is outside the tensor -/
+def ofOption : Option α → Outcome α
+  | some v => .ok v
+  | none => .noSlot
+
 /-- `torch.where((selector - bounded_selector).abs() <= tolerance, res, overbound)` on a
 `B·N × D` tensor (element-wise; `bsel` computes the bounded selector of an entry). -/
 def overboundB (K : Ops α) (tol : α) (over : Option α) (transform : α → α) (bsel : α → α)
@@ -124,10 +129,7 @@ def synparamAtB (K : Ops α) (interp : Interp α) (r : Ring (List α)) (dt durat
     match r.read 1 with
     | none => .noSlot
     | some row =>
-      let res := sel.zipIdx.map fun tp => tp.1.map fun _ =>
-        match row[tp.2]? with
-        | none => Outcome.noSlot
-        | some v => Outcome.ok v
+      let res := sel.zipIdx.map fun tp => tp.1.map fun _ => ofOption row[tp.2]?
       .ok (overboundB K tol over transform (fun _ => K.ofInt 0) sel res)
   else
     let bsel := fun t => clamp K t (K.ofInt 0) duration
